@@ -1,5 +1,5 @@
 //@ module src/crypto/noise/mod.rs
-//@ harness c01_parse_and_verify_contract kind=bounded tier=quick timeout=1200 covers=4 bound="identity key and signature of 0..=4 bytes (content symbolic, 32-byte DH key symbolic); the unbounded proof is the Verus unit noise_auth — this harness adds the literal domain string and the real Vec/concat code"
+//@ harness c01_parse_and_verify_contract kind=bounded tier=quick timeout=1200 covers=4 bound="identity key and signature of 0..=4 bytes (content symbolic, 32-byte DH.v key symbolic); the unbounded proof is the Verus unit noise_auth — this harness adds the literal domain string and the real Vec/concat code"
 //@ harness c01_noise_auth_canary kind=canary tier=quick timeout=120
 //
 // C01 — the identity check of the Noise handshake: parse_and_verify_peer_id(payload, dh_remote_pubkey).
@@ -9,20 +9,29 @@
 // compare what they receive with the harness' symbols, so the result holds for every content.
 use super::*;
 
-static mut PARSE_CALLS: u8 = 0;
-static mut VRFY_CALLS: u8 = 0;
-static mut PID_CALLS: u8 = 0;
-static mut PARSE_ARG_OK: bool = false;
-static mut PARSE_RET_OK: bool = false;
-static mut VRFY_MSG_OK: bool = false;
-static mut VRFY_SIG_OK: bool = false;
-static mut VRFY_RET: bool = false;
-static mut PID_ARG_OK: bool = false;
-static mut K: [u8; 4] = [0; 4];
-static mut KLEN: usize = 0;
-static mut S: [u8; 4] = [0; 4];
-static mut SLEN: usize = 0;
-static mut DH: [u8; 32] = [0; 32];
+/// Every mutable static of this file carries a unique tag next to its value.  Kani 0.68 names a constant allocation
+/// after the first global with the same bytes, so an all-zero `static mut X: usize = 0` can become the storage of an
+/// unrelated all-zero CONSTANT of the standard library (observed: alloc::raw_vec::ZERO_CAP read from a harness
+/// counter, depending on the crate hash and therefore on the path of the checkout).  A unique tag makes the bytes of
+/// each static unique, so no constant can be merged with it.
+#[repr(C)]
+struct Tagged<T> { tag: u64, v: T }
+
+
+static mut PARSE_CALLS: Tagged<u8> = Tagged { tag: 0xbca6c47d68e9ec3, v: 0 };
+static mut VRFY_CALLS: Tagged<u8> = Tagged { tag: 0x14844418548fd6d, v: 0 };
+static mut PID_CALLS: Tagged<u8> = Tagged { tag: 0x2115ea0a7c89251, v: 0 };
+static mut PARSE_ARG_OK: Tagged<bool> = Tagged { tag: 0x37c53da3ebe079, v: false };
+static mut PARSE_RET_OK: Tagged<bool> = Tagged { tag: 0xdf0e5029f62761b, v: false };
+static mut VRFY_MSG_OK: Tagged<bool> = Tagged { tag: 0x9000d2f7d3113b1, v: false };
+static mut VRFY_SIG_OK: Tagged<bool> = Tagged { tag: 0xe1b4d113371ea1f, v: false };
+static mut VRFY_RET: Tagged<bool> = Tagged { tag: 0xa9f1ef736278d85, v: false };
+static mut PID_ARG_OK: Tagged<bool> = Tagged { tag: 0x2652fff43453a2b, v: false };
+static mut K: Tagged<[u8; 4]> = Tagged { tag: 0x3ce012b90136be9, v: [0; 4] };
+static mut KLEN: Tagged<usize> = Tagged { tag: 0xbbac188617ff939, v: 0 };
+static mut S: Tagged<[u8; 4]> = Tagged { tag: 0x2864d8fce4652ab, v: [0; 4] };
+static mut SLEN: Tagged<usize> = Tagged { tag: 0x99634cfb714d5db, v: 0 };
+static mut DH: Tagged<[u8; 32]> = Tagged { tag: 0xe0429304c5ec4d1, v: [0; 32] };
 
 fn same(a: &[u8], b: &[u8]) -> bool {
     if a.len() != b.len() { return false; }
@@ -32,12 +41,12 @@ fn same(a: &[u8], b: &[u8]) -> bool {
 }
 /// `parse`: uninterpreted; may fail
 fn stub_parse(bytes: &[u8]) -> Result<RemotePublicKey, ParseError> {
-    unsafe { PARSE_CALLS += 1; PARSE_ARG_OK = same(bytes, &K[..KLEN]); }
+    unsafe { PARSE_CALLS.v += 1; PARSE_ARG_OK.v = same(bytes, &K.v[..KLEN.v]); }
     if kani::any() {
-        unsafe { PARSE_RET_OK = false; }
+        unsafe { PARSE_RET_OK.v = false; }
         Err(ParseError::InvalidPublicKey)
     } else {
-        unsafe { PARSE_RET_OK = true; }
+        unsafe { PARSE_RET_OK.v = true; }
         // fabricated key object: never read (verify is stubbed), never dropped
         Ok(unsafe { core::mem::MaybeUninit::uninit().assume_init() })
     }
@@ -45,17 +54,17 @@ fn stub_parse(bytes: &[u8]) -> Result<RemotePublicKey, ParseError> {
 /// `vrfy`: uninterpreted; records the message and the signature it was given
 fn stub_verify(_this: &RemotePublicKey, msg: &[u8], sig: &[u8]) -> bool {
     unsafe {
-        VRFY_CALLS += 1;
+        VRFY_CALLS.v += 1;
         let dom = b"noise-libp2p-static-key:";       // written out from the spec, not taken from the crate's constant
-        VRFY_MSG_OK = msg.len() == dom.len() + 32 && same(&msg[..dom.len()], dom) && same(&msg[dom.len()..], &DH);
-        VRFY_SIG_OK = same(sig, &S[..SLEN]);
-        VRFY_RET = kani::any();
-        VRFY_RET
+        VRFY_MSG_OK.v = msg.len() == dom.len() + 32 && same(&msg[..dom.len()], dom) && same(&msg[dom.len()..], &DH.v);
+        VRFY_SIG_OK.v = same(sig, &S.v[..SLEN.v]);
+        VRFY_RET.v = kani::any();
+        VRFY_RET.v
     }
 }
 /// `pid`: uninterpreted hash of the encoded key
 fn stub_pid(key_enc: &[u8]) -> PeerId {
-    unsafe { PID_CALLS += 1; PID_ARG_OK = same(key_enc, &K[..KLEN]); }
+    unsafe { PID_CALLS.v += 1; PID_ARG_OK.v = same(key_enc, &K.v[..KLEN.v]); }
     PeerId::from_bytes(&[0u8, 1, 42]).unwrap()
 }
 
@@ -72,7 +81,7 @@ fn c01_parse_and_verify_contract() {
     let slen: usize = kani::any();
     kani::assume(slen <= 4);
     let dh: [u8; 32] = kani::any();
-    unsafe { K = k; KLEN = klen; S = s; SLEN = slen; DH = dh; }
+    unsafe { K.v = k; KLEN.v = klen; S.v = s; SLEN.v = slen; DH.v = dh; }
     let has_k: bool = kani::any();
     let has_s: bool = kani::any();
     let payload = handshake_schema::NoiseHandshakePayload {
@@ -90,22 +99,22 @@ fn c01_parse_and_verify_contract() {
             Ok(p) => {
                 // a peer id is reported only if ...
                 assert!(has_k && has_s);                                   // identity key and signature present
-                assert!(PARSE_CALLS == 1 && PARSE_ARG_OK && PARSE_RET_OK); // the key was parsed from the identity bytes
-                assert!(VRFY_CALLS == 1);                                  // the signature was checked, once,
-                assert!(VRFY_MSG_OK);                                      //   over DOMAIN || this session's static DH key
-                assert!(VRFY_SIG_OK);                                      //   with the payload's signature
-                assert!(VRFY_RET);                                         //   and the check succeeded
-                assert!(PID_CALLS >= 1 && PID_ARG_OK);                     // the id is derived from the SAME identity bytes
+                assert!(PARSE_CALLS.v == 1 && PARSE_ARG_OK.v && PARSE_RET_OK.v); // the key was parsed from the identity bytes
+                assert!(VRFY_CALLS.v == 1);                                  // the signature was checked, once,
+                assert!(VRFY_MSG_OK.v);                                      //   over DOMAIN || this session's static DH.v key
+                assert!(VRFY_SIG_OK.v);                                      //   with the payload's signature
+                assert!(VRFY_RET.v);                                         //   and the check succeeded
+                assert!(PID_CALLS.v >= 1 && PID_ARG_OK.v);                     // the id is derived from the SAME identity bytes
                 assert!(*p == PeerId::from_bytes(&[0u8, 1, 42]).unwrap());
             }
             Err(e) => {
-                if !has_k { assert!(matches!(e, NegotiationError::PeerIdMissing)); assert!(PARSE_CALLS == 0 && VRFY_CALLS == 0); }
-                if has_k && has_s && PARSE_RET_OK && VRFY_CALLS == 1 { assert!(!VRFY_RET); assert!(matches!(e, NegotiationError::BadSignature)); }
-                if has_k && PARSE_RET_OK && !has_s { assert!(matches!(e, NegotiationError::BadSignature)); assert!(VRFY_CALLS == 0); }
+                if !has_k { assert!(matches!(e, NegotiationError::PeerIdMissing)); assert!(PARSE_CALLS.v == 0 && VRFY_CALLS.v == 0); }
+                if has_k && has_s && PARSE_RET_OK.v && VRFY_CALLS.v == 1 { assert!(!VRFY_RET.v); assert!(matches!(e, NegotiationError::BadSignature)); }
+                if has_k && PARSE_RET_OK.v && !has_s { assert!(matches!(e, NegotiationError::BadSignature)); assert!(VRFY_CALLS.v == 0); }
             }
         }
         // completeness: a well-formed, correctly signed payload is accepted
-        if has_k && has_s && PARSE_CALLS == 1 && PARSE_RET_OK && VRFY_CALLS == 1 && VRFY_RET { assert!(r.is_ok()); }
+        if has_k && has_s && PARSE_CALLS.v == 1 && PARSE_RET_OK.v && VRFY_CALLS.v == 1 && VRFY_RET.v { assert!(r.is_ok()); }
     }
     core::mem::forget(r);
 }
